@@ -144,4 +144,12 @@ def LoadSt.unload (c : LoadSt) (l : Level) : LoadSt :=
 def LoadSt.unloadPinned (c : LoadSt) (l : Level) : LoadSt :=
   { c with slots := c.slots.set l [], found := setFound c.found l none }
 
+/-- `load_*(…, merge=False)`: the slot is replaced, the merged cache is NOT recomputed (it stays as it was until
+    something merges) -/
+def LoadSt.loadUnmerged (c : LoadSt) (l : Level) (d : KVs) : LoadSt :=
+  { c with slots := c.slots.set l d }
+
+/-- `Config.merge()` -/
+def LoadSt.remerge (c : LoadSt) : LoadSt := { c with cache := view c.slots }
+
 end Inv
